@@ -9,15 +9,20 @@ PROPERTY = 'C18'
 LEAN_PROPS = 'PlumpyModel.Props.C18'
 ASSUMPTIONS = [
     'user code (step functions, continuations, callbacks) is an oracle: any sequence of samples, awaits, out(), call_soon(), '
-    'launch() and nested execute() (theorems: every scenario); it does not raise except as the last action of a step, does not '
-    'touch PROCESS_STACK itself and does not call pause/kill/fail (those are C03-C05)',
+    'launch(), nested execute() and children awaited inline in the same task (`await child.step_until_terminated()` under an '
+    'absorbing `except BaseException`), to any depth (theorems: every scenario); it does not raise except as the last action of a '
+    'step (an Exception or a BaseException that is not an Exception), does not touch PROCESS_STACK itself and does not call '
+    'pause/kill/fail (those are C03-C05)',
+    'cancellation: `task.cancel()` is issued by the harness between two callbacks, on a task that is suspended at an await point (a '
+    'bare yield, the future of a WAITING process) or has not started - not on a task that is inside a nested execute() (it is '
+    'running); the CancelledError is thrown when the task next runs and is absorbed by the innermost inline await, else ends the task',
     'an await is a bare yield to the loop (asyncio.sleep(0)): the task is ready again at once and the harness picks the order; '
     'waiting processes are resumed by the harness between two callbacks',
     'restore clause, reference value: the "previous value" for the first scope of a task is what the code that created the task '
     'observed at that moment (contextvars: a task starts with a copy of its creator\'s context); the monitors take it from the '
     'implementation\'s own samples at the creation point (on_create hook, call_soon site), not from the model',
-    'inline-await stream (harness/c18_inline.py, impl-only, no model): a child awaited in the parent\'s own task, its step left '
-    'normally / by an Exception / by a BaseException / by task.cancel() at every await point, absorbed by the parent',
+    'harness/c18_inline.py (hand-written families of inline awaits, impl-only) is kept as a regression corpus; the same families '
+    'and many more now go through the model correspondence (procstack_gen.corpus_inline, random_scenario_inline)',
     'generated programs are finite (a class only launches / executes later classes; callbacks only execute the last, leaf class); '
     'launch() and out() are only called from steps (a callback may run after its process was closed)',
     'the hook clause of the property is a recorded finding (F14): lifecycle hooks fired by transition_to / the constructor / close() '
@@ -64,7 +69,8 @@ def check_runs(scn, runs, model_ok, name):
         lines += ol
     model = common.Model(True).run('procstack', lines) if model_ok else None
     out = dict(name=name, n_runs=len(runs), n_ops=len(lines), divergences=[], failures={}, digests=set(), kinds={}, hooks_outside=set(),
-               hooks_inside=set(), max_nest=0, max_tasks=0, max_procs=0, n_div=0, nontrivial=0, n_samples=0)
+               hooks_inside=set(), max_nest=0, max_tasks=0, max_procs=0, n_div=0, nontrivial=0, n_samples=0, max_inline=0, n_cancel=0,
+               n_absorbed_base=0, n_absorbed_cancel=0, n_inline_runs=0)
     for r, (a, n) in zip(runs, spans):
         il = pg.impl_lines(r, has_stack)
         sched = [c for c, _ in r['taken']]
@@ -105,6 +111,11 @@ def check_runs(scn, runs, model_ok, name):
         out['max_nest'] = max(out['max_nest'], r['max_nest'])
         out['max_tasks'] = max(out['max_tasks'], r['n_tasks'])
         out['max_procs'] = max(out['max_procs'], r['n_procs'])
+        out['max_inline'] = max(out['max_inline'], r.get('max_inline', 0))
+        out['n_cancel'] += sum(1 for ch in r['chunks'] if ch['op'].startswith('cancel'))
+        out['n_absorbed_base'] += r.get('absorbed', []).count('BaseBoom')
+        out['n_absorbed_cancel'] += r.get('absorbed', []).count('CancelledError')
+        out['n_inline_runs'] += 1 if r.get('max_inline', 0) > 0 else 0
     out['sample'] = dict(line=lines[0], ops=[ch['op'] for ch in runs[0]['chunks'][1:6]], impl=pg.impl_lines(runs[0], has_stack)[:2]) if runs else None
     return out
 
@@ -167,16 +178,31 @@ def run(ctx):
             batch = []
     if batch:
         jobs.append(('random', batch, ctx.model.available))
+    # -- children awaited inline, BaseException endings, cancellation (generated after the streams above: their inputs are unchanged)
+    for name, scn in pg.corpus_inline():
+        jobs.append(('explore', (name, scn, cap, rng.randrange(1 << 30)), ctx.model.available))
+    for i in range(30 if not deep else 200):
+        scn = small_random(rng, pg.random_scenario_inline)
+        jobs.append(('explore', (f'small-inline{i}', scn, 400 if not deep else 3000, rng.randrange(1 << 30)), ctx.model.available))
+    batch = []
+    for i in range(500 if not deep else 8000):
+        batch.append((f'rand-inline{i}', pg.random_scenario_inline(rng, big=deep), per, rng.randrange(1 << 30)))
+        if len(batch) == 25:
+            jobs.append(('random', batch, ctx.model.available))
+            batch = []
+    if batch:
+        jobs.append(('random', batch, ctx.model.available))
 
+    jobs.sort(key=lambda j: j[0] != 'explore')   # the long enumerations first (the inputs do not depend on the order)
     with mp.Pool(ctx.workers) as pool:
         results = [r for rs in pool.imap_unordered(job, jobs, chunksize=1) for r in rs]
 
     failures, divergences = {}, []
     digests, kinds = set(), {}
     hooks_outside, hooks_inside = set(), set()
-    tot = dict(n_runs=0, n_ops=0, n_div=0, nontrivial=0, n_samples=0)
+    tot = dict(n_runs=0, n_ops=0, n_div=0, nontrivial=0, n_samples=0, n_cancel=0, n_absorbed_base=0, n_absorbed_cancel=0, n_inline_runs=0)
     exhaustive_scn, capped_scn, leaves = 0, [], 0
-    mx = dict(max_nest=0, max_tasks=0, max_procs=0)
+    mx = dict(max_nest=0, max_tasks=0, max_procs=0, max_inline=0)
     for r in results:
         for k in tot:
             tot[k] += r[k]
@@ -217,31 +243,37 @@ def run(ctx):
     if capped_scn:
         ctx.note(f'scenarios whose interleavings exceeded the cap (explored partially + random schedules): {capped_scn}')
     samples = [r['sample'] for r in results[:3] if r.get('sample')]
-    # impl-only stream: a child awaited inline (same task) whose step is left through a BaseException / a cancellation
+    # regression corpus (impl-only, hand-written): the inline-await families that first exposed the seeded change C18-r2-m1
     from harness import c18_inline
     inline_stats, inline_fails = c18_inline.run_stream(ctx.thorough)
-    fl = inline_fails[:5] + fl
+    fl = ([f for f in fl if not f['signature'].startswith('hook-outside-scope:')] + inline_fails[:5]
+          + [f for f in fl if f['signature'].startswith('hook-outside-scope:')])
+    n_model_runs = tot['n_runs']
     tot['n_runs'] += inline_stats['runs']
     return dict(
         evaluations=tot['n_runs'], distinct_nontrivial=len(digests),
         rule='one evaluation = one complete run of a scenario (generated Process classes) under one schedule on the real code, '
              'compared with the model after every callback; non-trivial = at least two tasks ticked and in-scope samples of at least '
              'two processes; distinct = distinct observation streams among those',
-        samples=samples, traces_validated=tot['n_runs'] - tot['n_div'] if ctx.model.available else 0,
+        samples=samples, traces_validated=n_model_runs - tot['n_div'] if ctx.model.available else 0,
         divergences=divergences[:50], failures=fl, exhaustive=False,
         histograms=dict(code_point_kinds=kinds, callbacks_compared=tot['n_ops'], samples_of_current=tot['n_samples'],
                         scenarios_all_interleavings=exhaustive_scn, schedules_in_exhaustive_scenarios=leaves,
                         scenarios_capped=len(capped_scn), nontrivial_runs=tot['nontrivial'],
                         hooks_outside_scope=sorted(hooks_outside), hooks_inside_scope=sorted(hooks_inside),
                         max_nested_execute_depth=mx['max_nest'], max_tasks=mx['max_tasks'], max_processes=mx['max_procs'],
-                        divergent_runs=tot['n_div'], inline_await_stream=inline_stats),
+                        divergent_runs=tot['n_div'],
+                        runs_with_inline_awaited_child=tot['n_inline_runs'], max_inline_await_depth=mx['max_inline'],
+                        cancel_requests=tot['n_cancel'], baseexceptions_absorbed_by_awaiting_parent=tot['n_absorbed_base'],
+                        cancellations_absorbed_by_awaiting_parent=tot['n_absorbed_cancel'],
+                        inline_regression_corpus=inline_stats),
     )
 
 
-def small_random(rng):
+def small_random(rng, gen=pg.random_scenario):
     """random scenario small enough for all its interleavings: <= 3 top-level processes, short codes, <= 2 awaits per step"""
     while True:
-        scn = pg.random_scenario(rng)
+        scn = gen(rng)
         n_aw = sum(st['code'].count('a') for c in scn['classes'] for st in c) + sum(c.count('a') for c in scn['cbs'])
         if len(scn['top']) <= 3 and n_aw <= 4 and pg.scenario_size(scn) <= 18:
             return scn
